@@ -119,7 +119,8 @@ pub fn parent() {
     let inputs: Vec<String> = stdin.lock().lines().map(|l| l.unwrap().trim().to_string()).filter(|l| !l.is_empty()).collect();
     let exe = std::env::current_exe().unwrap();
     let mut next = 0usize;
-    while next < inputs.len() {
+    let mut hangs = 0;
+    while next < inputs.len() && hangs < 2 {
         let mut ch = Command::new(&exe).arg("crash-child").stdin(Stdio::piped()).stdout(Stdio::piped()).stderr(Stdio::null()).spawn().unwrap();
         {
             let mut si = ch.stdin.take().unwrap();
@@ -150,7 +151,13 @@ pub fn parent() {
         }
         let status = ch.wait().unwrap();
         if let Some(k) = began {
-            // the child died while parsing input k
+            // the child died while parsing input k (status 99: its watchdog gave up waiting for the parser)
+            if status.code() == Some(99) {
+                hangs += 1;
+                println!("{}\tHANG(no verdict within {} s)", inputs[k], crate::util::HANG_LIMIT_SECS);
+                next = k + 1;
+                continue;
+            }
             println!("{}\tABORT({})", inputs[k], status);
             next = k + 1;
         } else if !status.success() && next < inputs.len() {
